@@ -33,8 +33,27 @@ type RecSigner struct {
 	SigVal  []byte
 }
 
+// CertZone is the (non-UTC) location in which the validity period of certificate-mode signers is
+// handed to the packet API: the same instants, expressed in another zone. The API must encode
+// the instants, whatever Location the time values carry.
+var CertZone = time.FixedZone("verif+0530", 5*3600+1800)
+
+func init() {
+	// The shipped certificate-mode signers take NotBefore/NotAfter from time.Now(), i.e. in
+	// time.Local: run the whole harness in a non-UTC zone, like an application on a desktop.
+	time.Local = CertZone
+}
+
 func (r *RecSigner) SigInfo() (*ndn.SigConfig, error) {
 	c, err := r.Inner.SigInfo()
+	if c != nil && c.NotBefore != nil {
+		t := c.NotBefore.In(CertZone)
+		c.NotBefore = &t
+	}
+	if c != nil && c.NotAfter != nil {
+		t := c.NotAfter.In(CertZone)
+		c.NotAfter = &t
+	}
 	r.Cfg = c
 	return c, err
 }
@@ -73,10 +92,10 @@ var (
 	KeyRSA2048b *rsa.PrivateKey
 )
 
-// HmacKeyLens are the lengths of the additional HMAC keys: 1, and around the digest size (32) and
+// HmacKeyLens are the lengths of the additional HMAC keys: 0 (the signers accept an empty key), 1, and around the digest size (32) and
 // the block size (64) of SHA-256, where HMAC treats the key differently (RFC 2104: a key longer
 // than the block is replaced by its digest).
-var HmacKeyLens = []int{1, 32, 63, 64, 65, 128}
+var HmacKeyLens = []int{0, 1, 32, 63, 64, 65, 128}
 
 // HmacKeyOfLen returns the fixed test key of n bytes.
 func HmacKeyOfLen(n int) []byte {
